@@ -105,8 +105,8 @@ CHECKS = {
             "DESIGN.md §3 C19"),
     "C20": ("H-bfs", "model_checking",
             "explicit-state BFS over the real TuiState::update transition function with state dedup",
-            "All states reachable within the depth bound from the initial TuiState, over a frame alphabet covering every surface-relevant kind x seq {0,1,2,5,u64::MAX} x 9 capacity settings, are enumerated by executing the real update function; no-panic, bounds, lookup exactness and fold determinism are checked in every state, render (20x8, 80x24, thorough also 200x60) on every new state up to a smaller depth.",
-            "Bounded depth (3 full / 5 on the reduced core in thorough); alphabet values are representatives; state key is the Debug rendering; terminal size is not in the quantifier (degenerate sizes are not rendered); rip-cli headless renderers are not driven.",
+            "All states reachable within the depth bound from the initial TuiState, over a frame alphabet covering every surface-relevant kind x seq {0,1,2,5,u64::MAX} x 9 capacity settings, are enumerated by executing the real update function; no-panic, bounds, lookup exactness and fold determinism are checked in every state, render (20x8, 80x24, thorough also 200x60) on every new state up to a smaller depth. Second part: every sequence of <=1 frame of the full alphabet and of 2 frames of the core kinds (thorough: 2 of the full alphabet) is played as the session event stream to the real `rip run --server` binary (built by ./vcheck C20) in the views raw / output / metrics (metrics under 3 timestamp patterns), each case twice: normal exit, no panic, identical output, raw view = the frames sent up to the first session end.",
+            "Bounded depth (3 full / 5 on the reduced core in thorough); alphabet values are representatives; state key is the Debug rendering; terminal size is not in the quantifier (degenerate sizes are not rendered); of rip-cli only the `rip run` renderers are driven (not tasks watch / threads).",
             "DESIGN.md §3 C20"),
 }
 
